@@ -72,6 +72,13 @@ pub struct ConcParams {
     /// percentage of upserts that carry no value (TTL-only / remove-TTL / weight-only). Valid only
     /// while the key is present: the harness catches the documented refusal otherwise.
     pub valueless_pct: u64,
+    /// percentage of upserts that carry only a TTL change (add / change / remove), no value and no
+    /// weight: the charged weight moves by the TTL surcharge (+-24). Only generated for keys whose
+    /// fixed weight is >= 30 (so that removing the surcharge stays positive) and only meaningful
+    /// where the demand bound accounts for the surcharge (Fits strata).
+    pub bare_ttl_pct: u64,
+    /// extra time-thread activity (ticks / rotations) so that sweeps really run
+    pub extra_sweeps: bool,
 }
 
 impl ConcParams {
@@ -94,6 +101,8 @@ impl ConcParams {
             hash_modes: vec![HashMode::Identity, HashMode::Mixed, HashMode::Constant],
             tiny_queue_pct: 50,
             valueless_pct: 0,
+            bare_ttl_pct: 0,
+            extra_sweeps: false,
         }
     }
 }
@@ -122,7 +131,7 @@ pub const ADVANCES: [Dur; 8] = [
 
 pub fn gen_cfg(rng: &mut Rng, keys: u32, pressure: Pressure, ttl_possible: bool, p: &ConcParams) -> Cfg {
     // per-key weights first, then a limit in the requested relation to the demand
-    let mut ws: Vec<i64> = (0..keys).map(|_| *rng.pick(&[1i64, 2, 3, 5, 8, 10, 13, 20, 25, 40])).collect();
+    let mut ws: Vec<i64> = (0..keys).map(|_| *rng.pick(&[1i64, 2, 3, 5, 8, 10, 13, 20, 25, 30, 40, 55])).collect();
     let surcharge = if ttl_possible { 24 } else { 0 };
     let demand: i64 = ws.iter().map(|w| w + surcharge).sum();
     let weight = match pressure {
@@ -225,7 +234,20 @@ pub fn conc(rng: &mut Rng, property: &str, stratum: &str, p: &ConcParams) -> Sce
                         // is paired with the explicit weight)
                         val = None;
                     }
-                    let weight = if val.is_none() {
+                    let bare = ws[key as usize] >= 30 && rng.chance(p.bare_ttl_pct, 100);
+                    if bare {
+                        val = None;
+                        if ttl.is_none() && !remove_ttl {
+                            if rng.chance(1, 2) {
+                                ttl = Some(*rng.pick(&TTLS));
+                            } else {
+                                remove_ttl = true;
+                            }
+                        }
+                    }
+                    let weight = if bare {
+                        None
+                    } else if val.is_none() {
                         Some(ws[key as usize])
                     } else if p.upsert_may_raise {
                         if rng.chance(1, 2) { Some(rng.range_i(1, cfg.weight + 5)) } else { None }
@@ -262,6 +284,18 @@ pub fn conc(rng: &mut Rng, property: &str, stratum: &str, p: &ConcParams) -> Sce
             match rng.below(10) {
                 0..=4 => prog.push(Op::Advance(*rng.pick(&ADVANCES))),
                 5..=8 => prog.push(Op::Tick),
+                _ => prog.push(Op::Rotate),
+            }
+        }
+        threads.push(prog);
+    }
+    if p.extra_sweeps {
+        let n = rng.range(3, 8) as usize;
+        let mut prog = vec![];
+        for _ in 0..n {
+            match rng.below(10) {
+                0..=3 => prog.push(Op::Advance(*rng.pick(&ADVANCES))),
+                4..=6 => prog.push(Op::Tick),
                 _ => prog.push(Op::Rotate),
             }
         }
